@@ -22,22 +22,22 @@ from . import c06_world as W
 SPEC = tlc.SPECS / "faults"
 PAR = max(1, min(8, tlc.DEFAULT_WORKERS))      # concurrent TLC launches
 # short TLC runs: the C2 compiler and a GC thread per core cost more CPU than they save
-JVM_SHORT = {"_JAVA_OPTIONS": "-XX:TieredStopAtLevel=1 -XX:CICompilerCount=1 -XX:ParallelGCThreads=2"}
-JVM_LONG = {"_JAVA_OPTIONS": "-XX:ParallelGCThreads=2"}
+JVM_SHORT = {"_JAVA_OPTIONS": "-XX:TieredStopAtLevel=1 -XX:CICompilerCount=1 -XX:ParallelGCThreads=2 -Xss16m"}
+JVM_LONG = {"_JAVA_OPTIONS": "-XX:ParallelGCThreads=2 -Xss16m"}
 INVS = ["InvCrashQuiet", "InvUnaffected", "InvResumes", "InvPartition", "InvLoss", "InvLatency", "InvCapacity",
         "InvTraffic", "InvEndState"]
 
-# deviation -> (mode, MaxW, TMax, CancelModes, invariants one of which must be reported)
+# deviation -> contract clauses (invariants of Faults.tla) at least one of which it must break
 DEVIATIONS = {
-    "continuation_ignores_crash": ("node", 1, 2, "{0}", {"InvCrashQuiet"}),
-    "bool_flag_not_refcount": ("node", 2, 3, "{0}", {"InvCrashQuiet"}),
-    "queued_worker_ignores_crash": ("queue", 1, 2, "{0}", {"InvCrashQuiet"}),
-    "heal_removes_shared_pairs": ("part", 2, 3, "{0}", {"InvPartition", "InvTraffic"}),
-    "lat_restore_captured_original": ("link", 2, 3, "{0}", {"InvLatency", "InvTraffic"}),
-    "loss_restore_captured_original": ("link", 2, 3, "{0}", {"InvLoss", "InvTraffic"}),
-    "capacity_restore_captured_original": ("cap", 2, 3, "{0}", {"InvCapacity"}),
-    "capacity_restore_adds_delta": ("cap", 1, 3, "{0}", {"InvEndState"}),
-    "cancel_before_start_ineffective": ("mixed", 1, 2, "{1}", set(INVS)),
+    "continuation_ignores_crash": {"InvCrashQuiet"},
+    "bool_flag_not_refcount": {"InvCrashQuiet"},
+    "queued_worker_ignores_crash": {"InvCrashQuiet"},
+    "heal_removes_shared_pairs": {"InvPartition", "InvTraffic"},
+    "lat_restore_captured_original": {"InvLatency", "InvTraffic"},
+    "loss_restore_captured_original": {"InvLoss", "InvTraffic"},
+    "capacity_restore_captured_original": {"InvCapacity"},
+    "capacity_restore_adds_delta": {"InvEndState"},
+    "cancel_before_start_ineffective": set(INVS),
 }
 
 # contract key (what fails, computed by FaultsTrace.tla) -> deviation of the model that produces it
@@ -62,76 +62,47 @@ def as_code_dev():
                    if e["property"] == "C06" and e.get("deviation") in DEVIATIONS})
 
 
-def consts(mode, maxw, tmax, cancel="{0}", dev=()):
-    return {"Dev": "{" + ",".join(f'"{d}"' for d in dev) + "}", "Mode": f'"{mode}"', "MaxW": maxw, "TMax": tmax,
-            "CancelModes": cancel}
-
-
-MC_QUICK = [("node", 2, 4, "{0}"), ("node", 3, 2, "{0}"), ("queue", 2, 3, "{0}"), ("part", 2, 3, "{0}"),
-            ("link", 2, 3, "{0}"), ("cap", 2, 3, "{0}"), ("mixed", 2, 2, "{0}"), ("mixed", 1, 3, "{0,1,2,3}")]
-MC_THOROUGH = [("node", 3, 4, "{0}"), ("node", 2, 5, "{0}"), ("queue", 3, 3, "{0}"), ("queue", 2, 4, "{0}"),
-               ("part", 3, 3, "{0}"), ("link", 3, 3, "{0}"), ("net", 3, 3, "{0}"), ("cap", 3, 3, "{0}"),
-               ("cap", 2, 4, "{0}"), ("mixed", 2, 3, "{0}"), ("mixed", 3, 2, "{0}"), ("mixed", 2, 2, "{0,1,2,3}"),
-               ("node", 2, 3, "{0,1,2,3}")]
-GEN_QUICK = [("node", 2, 3, "{0}"), ("queue", 2, 3, "{0}"), ("part", 2, 3, "{0}"), ("link", 2, 3, "{0}"),
-             ("cap", 2, 3, "{0}"), ("mixed", 2, 2, "{0}"), ("mixed", 1, 3, "{0,1,2,3}")]
-GEN_THOROUGH = [("node", 3, 3, "{0}"), ("queue", 2, 4, "{0}"), ("part", 3, 3, "{0}"), ("link", 3, 3, "{0}"),
-                ("net", 2, 3, "{0}"), ("cap", 3, 3, "{0}"), ("mixed", 2, 3, "{0}"), ("mixed", 2, 2, "{0,1,2,3}"),
-                ("node", 2, 3, "{0,1,2,3}")]
-
-
 def model_check(chk, tier):
+    """One TLC run over all configurations of the tier (FaultsMC!MCQuick / MCThorough): the contract invariants
+    must hold on every schedule run with Dev = {}; the runs with one deviation switched on report (action
+    Report) which clauses they break, and every deviation must break one of its expected clauses."""
     wd = tlc.workdir("C06_mc")
-    jobs = []
-
-    def one(name, cst, timeout):
-        cfg = tlc.write_cfg(wd / f"{name}.cfg", constants=cst, invariants=INVS)
-        return tlc.run(SPEC / "FaultsMC.tla", cfg, label=f"C06_mc_{name}", timeout=timeout,
-                       workers=max(1, tlc.DEFAULT_WORKERS // PAR),
-                       env=JVM_SHORT if tier == "quick" or name.startswith("dev_") else JVM_LONG)
-
-    cfgs = MC_QUICK if tier == "quick" else MC_THOROUGH
-    for (mode, maxw, tmax, cancel) in cfgs:
-        name = f"{mode}_w{maxw}_t{tmax}_c{len(cancel) // 2}"
-        jobs.append((one, name, consts(mode, maxw, tmax, cancel), 3000))
-    for dev, (mode, maxw, tmax, cancel, invs) in DEVIATIONS.items():
-        jobs.append((one, f"dev_{dev}", consts(mode, maxw, tmax, cancel, dev=[dev]), 1200))
-    outs = _pool(jobs)
-    for (fn, name, cst, _), res in zip(jobs, outs):
-        if not name.startswith("dev_"):
-            chk.add_tlc(f"FaultsMC Dev={{}} {name}", res)
-            chk.require(res.ok, f"Faults.tla with Dev={{}} ({name}) violates {res.violated}")
-        else:
-            dev = name[4:]
-            chk.add_tlc(f"FaultsMC Dev={{{dev}}}", res, count=False, note="sensitivity run, must violate")
-            chk.require(res.violated in DEVIATIONS[dev][4], f"deviation {dev} not caught (got {res.violated})")
-            chk.sensitivity[dev] = res.violated
+    cfg = tlc.write_cfg(wd / "mc.cfg", spec="Spec", invariants=INVS,
+                        constants={"Dev": "{}", "Configs": "<- MCQuick" if tier == "quick" else "<- MCThorough"})
+    res = tlc.run(SPEC / "FaultsMC.tla", cfg, label="C06_mc", timeout=3000,
+                  workers=max(1, tlc.DEFAULT_WORKERS // 2), env=JVM_SHORT if tier == "quick" else JVM_LONG)
+    chk.add_tlc(f"FaultsMC {'MCQuick' if tier == 'quick' else 'MCThorough'} (Dev={{}} invariants + one run per "
+                f"deviation)", res)
+    chk.require(res.ok, f"Faults.tla with Dev={{}} violates {res.violated}")
+    broken = {}
+    for v in res.printed:
+        if isinstance(v, tuple) and len(v) == 3 and v[0] == "S" and len(v[1]) == 1:
+            broken.setdefault(next(iter(v[1])), set()).add(v[2])
+    for dev, invs in DEVIATIONS.items():
+        got = broken.get(dev, set())
+        chk.require(bool(got & invs), f"deviation {dev} not caught (clauses broken: {sorted(got)})")
+        chk.sensitivity[dev] = ",".join(sorted(got))
+    return res
 
 
 def model_schedules(chk, tier):
     """Every schedule TLC enumerates (= the initial states of FaultsMC) as a Python schedule."""
+    wd = tlc.workdir("C06_gen")
+    cfg = tlc.write_cfg(wd / "gen.cfg", next_="GenNext",
+                        constants={"Dev": "{}", "Configs": "<- GenQuick" if tier == "quick" else "<- GenThorough"})
+    res = tlc.run(SPEC / "FaultsMC.tla", cfg, label="C06_gen", extra=["-dump", str(wd / "states")],
+                  timeout=3000, workers=1, env=JVM_SHORT)
+    chk.add_tlc("schedule enumeration (initial states of FaultsMC)", res, count=False,
+                note="initial states = schedules handed to the real code")
     out, seen = [], set()
-
-    def one(n, mode, maxw, tmax, cancel):
-        wd = tlc.workdir(f"C06_gen{n}")
-        cfg = tlc.write_cfg(wd / "gen.cfg", next_="GenNext", constants=consts(mode, maxw, tmax, cancel))
-        res = tlc.run(SPEC / "FaultsMC.tla", cfg, label=f"C06_gen{n}", extra=["-dump", str(wd / "states")],
-                      timeout=3000, workers=1, env=JVM_SHORT)
-        states = list(tlc.parse_dump(wd / "states.dump"))
-        (wd / "states.dump").unlink(missing_ok=True)
-        return res, states
-
-    cfgs = GEN_QUICK if tier == "quick" else GEN_THOROUGH
-    outs = _pool([(one, n, *c) for n, c in enumerate(cfgs)])
-    for (mode, maxw, tmax, cancel), (res, states) in zip(cfgs, outs):
-        chk.add_tlc(f"schedule enumeration {mode} w{maxw} t{tmax}", res, count=False,
-                    note="initial states = schedules handed to the real code")
-        for n, st in enumerate(states):
-            sch = W.sch_from_state(st, flip=n)
-            key = json.dumps(sch, sort_keys=True)
-            if key not in seen:
-                seen.add(key)
-                out.append((f"model:{mode}", sch))
+    for n, st in enumerate(tlc.parse_dump(wd / "states.dump")):
+        sch = W.sch_from_state(st, flip=n)
+        key = json.dumps(sch, sort_keys=True)
+        if key not in seen:
+            seen.add(key)
+            mode = "+".join(sorted({w["k"] for w in sch["wins"]})) or "none"
+            out.append((f"model:{mode}", sch))
+    (wd / "states.dump").unlink(missing_ok=True)
     return out
 
 
@@ -148,7 +119,7 @@ def validate(traces, dev, label, conform=True):
     """Contract verdicts (FaultsJudge.tla) and model conformance (FaultsTrace.tla, Dev = dev) for all traces.
     Returns verdicts {id: (verdict, pos)}, keys {id: [(key, pos)]}, diffs {id: log}, TLC results."""
     consts_ = {"Dev": "{" + ",".join(f'"{d}"' for d in dev) + "}"}
-    chunk = max(40, min(400, -(-len(traces) // max(1, PAR // 2))))
+    chunk = max(40, min(600, -(-len(traces) // max(1, min(3, PAR // 2)))))
     parts = [traces[k:k + chunk] for k in range(0, len(traces), chunk)]
 
     def one(module, part, lab):
@@ -214,7 +185,9 @@ def run(tier, seed, replay=None):
     chk.require(len(W.TICKS) >= 2, "no tick size survives the float round trips")
     if replay:
         return run_replay(chk, replay)
-    model_check(chk, tier)
+    from concurrent.futures import ThreadPoolExecutor
+    bg = ThreadPoolExecutor(max_workers=1)
+    mc_future = bg.submit(model_check, chk, tier)         # runs while the real executions are made and judged
 
     traces, meta = [], {}
 
@@ -240,6 +213,8 @@ def run(tier, seed, replay=None):
         execute(W.random_schedule(rng), "random", W.TICKS[i % len(W.TICKS)], "control" if i % 4 == 3 else "fast")
 
     verdicts, keys, counts = judge(chk, traces, meta)
+    mc_future.result()
+    bg.shutdown()
     chk.impl_traces = len(traces)
     chk.extra["contract_keys_seen"] = counts
     chk.extra["accepted_traces"] = sum(1 for v in verdicts.values() if v[0] == "ACCEPT")
